@@ -38,7 +38,7 @@ add(_alloc_cfg('pocca_pocs', 1, 0, 1, 0))
 add(_alloc_cfg('pocma_pocs', 0, 1, 1, 0))
 
 # capacity pairs: conversions between containers of different inline capacity (source role M)
-PAIR_ONLY = ['svb_move_assign_default__psvbM', 'svb_move_assign__psvbM', 'svb_copy_assign_default__pcsvbM', 'svb_copy_assign__pcsvbM',
+PAIR_ONLY = ['svb_ctor__psvbM', 'svb_move_assign_default__psvbM', 'svb_move_assign__psvbM', 'svb_copy_assign_default__pcsvbM', 'svb_copy_assign__pcsvbM',
              'svb_ctor__psvbM', 'svb_ctor__pcsvbM_pcA', 'svb_move_assign_unequal_no_propagate__psvbM', 'sv_assign__psvM', 'sv_assign__pcsvM']
 _PF = {'MOVE_NOEXCEPT': 1, 'COPYABLE': 1, 'RELOCATE_WITH_MOVE': 1, 'POCCA': 0, 'POCMA': 0, 'POCS': 0, 'ALWAYS_EQUAL': 0}
 add(_c('pair_lt', N=3, M=2, only=PAIR_ONLY, facts=dict(_PF, M_LT_N=1, M_GT_N=0)))      # source inline capacity smaller than the destination's
@@ -81,8 +81,8 @@ def cfg_defines(cfg):
     return d
 
 TIERS = {
-    'quick': ['main', 'tmove', 'aprop', 'aeq', 'pocs', 'pair_lt', 'n0', 'kf_inline_gt_max'],
-    'thorough': ['main', 'tmove', 'aprop', 'aeq', 'pocs', 'pair_lt', 'pair_gt', 'n0_full', 'kf_inline_gt_max', 'pocca', 'pocma', 'pocca_pocma', 'pocca_pocs', 'pocma_pocs'],
+    'quick': ['main', 'tmove', 'aprop', 'aeq', 'pocs', 'pair_lt', 'pair_gt', 'n0', 'u8', 'kf_inline_gt_max'],
+    'thorough': ['main', 'tmove', 'aprop', 'aeq', 'pocs', 'pair_lt', 'pair_gt', 'n0_full', 'u8', 'kf_inline_gt_max', 'pocca', 'pocma', 'pocca_pocma', 'pocca_pocs', 'pocma_pocs'],
 }
 
 # ---- quick tier: per property, the proofs run on every change (measured: <= ~10 min on 16 cores each).
@@ -93,19 +93,23 @@ _CORE = ['svb_append_element__pcE', 'svb_append_element__pE', 'svb_append_copies
          'svb_emplace_into_current__pE_pcE', 'svb_emplace_into_reallocation__pE_pcE', 'svb_erase_range', 'svb_erase_at', 'svb_erase_last',
          'svb_erase_all', 'svb_erase_to_end', 'svb_assign_with_copies', 'svb_copy_assign_default__pcsvb', 'svb_move_assign_default__psvb',
          'svb_swap_default', 'svb_ctor__ul_pcE_pcA', 'svb_ctor__ul_pcA', 'svb_ctor__pcE_pcE_pcA', 'svb_ctor__psvb', 'svb_ctor__pcA', 'svb_dtor',
-         'svb_append_range__strong_pcE_pcE', 'svb_insert_copies@trivial', 'svb_insert_copies@realloc']
+         'svb_append_range__strong_pcE_pcE']
 _TMOVE = ['svb_append_element__pcE', 'svb_request_capacity', 'svb_shrink_to_size', 'svb_emplace_into_reallocation__pE_pcE', 'svb_append_range__strong_pcE_pcE',
           'ai_default_uninitialized_copy__pE_pE_pE']
 _OBS = ['sv_size', 'sv_capacity', 'sv_max_size', 'sv_empty', 'sv_data__v', 'sv_begin__v', 'sv_end__v', 'sv_inlined', 'sv_inlinable', 'sv_at__ul', 'sv_op_index__ul']
 _PUB = ['sv_push_back__pcE', 'sv_push_back__pE', 'sv_emplace_back__pcE', 'sv_pop_back', 'sv_clear', 'sv_reserve', 'sv_shrink_to_fit', 'sv_resize__ul',
         'sv_insert__svcit_ul_pcE', 'sv_erase__svcit', 'sv_erase__svcit_svcit', 'sv_assign__ul_pcE', 'sv_append__pcE_pcE']
 _ALLOC = ['svb_copy_assign__pcsvb', 'svb_copy_assign_default__pcsvb', 'svb_move_assign_default__psvb', 'svb_swap_default', 'svb_ctor__psvb', 'sv_get_allocator']
-_GLOBAL = {'main': _LEAVES + _CORE, 'tmove': _TMOVE}
+_LEAVES_Q = [l for l in _LEAVES if l != 'ai_default_uninitialized_copy__pcE_pcE_pE']
+_GLOBAL = {'main': _LEAVES_Q + _CORE, 'tmove': _TMOVE}
 QUICK = {
     'C01': {'main': _CORE + _PUB + ['sv_at__ul', 'sv_at__ul_c', 'sv_op_index__ul', 'sv_front__v', 'sv_back__v']},
     'C02': {'main': _CORE + _OBS + ['sv_shrink_to_fit'], 'tmove': _TMOVE, 'n0': ['svb_append_element__pcE', 'svb_shrink_to_size', 'sv_inlined']},
     'C03': _GLOBAL, 'C04': dict(_GLOBAL, pair_lt=['svb_move_assign_default__psvbM']), 'C06': _GLOBAL,
-    'C12': dict(_GLOBAL, kf_inline_gt_max=['svb_append_element__pcE'], main=_LEAVES + _CORE + ['svb_unchecked_calculate_new_capacity', 'sv_max_size']),
+    'C12': dict(tmove=['svb_append_element__pcE', 'svb_request_capacity'], kf_inline_gt_max=['svb_append_element__pcE'], main=['ai_uninitialized_fill__pE_pE_pcE', 'ai_external_range_length__pcE_pcE', 'svb_unchecked_calculate_new_capacity', 'svb_append_element__pcE', 'svb_append_copies', 'svb_request_capacity',
+                      'svb_emplace_into_reallocation__pE_pcE', 'svb_assign_with_copies', 'svb_ctor__ul_pcE_pcA', 'svb_ctor__pcE_pcE_pcA', 'svb_append_range__strong_pcE_pcE',
+                      'svb_insert_copies@realloc', 'sv_max_size', 'sv_reserve'],
+                u8=['ai_external_range_length__pcE_pcE', 'svb_unchecked_calculate_new_capacity', 'svb_append_copies', 'svb_ctor__pcE_pcE_pcA']),
     'C13': _GLOBAL,
     'C05': {'main': ['svb_append_element__pcE', 'svb_append_element__pE', 'svb_request_capacity', 'svb_shrink_to_size', 'svb_resize_with__ul', 'svb_append_range__strong_pcE_pcE',
                      'svb_append_range__strong_FI_FI', 'svb_emplace_into_reallocation__pE_pcE', 'sv_push_back__pcE', 'sv_push_back__pE', 'sv_emplace_back__pcE', 'sv_reserve',
@@ -125,6 +129,6 @@ QUICK = {
                      'svb_assign_with_copies', 'svb_copy_assign_default__pcsvb', 'svb_append_range__strong_pcE_pcE', 'svb_resize_with__ul', 'svb_insert_copies@realloc', 'sv_reserve'],
             'n0': ['svb_append_element__pcE', 'svb_unchecked_calculate_new_capacity']},
     'C15': {'main': ['ai_external_range_length__FI_FI', 'ai_default_uninitialized_copy__FI_FI_pE', 'svb_append_range__strong_FI_FI', 'ai_external_range_length__pcE_pcE']},
-    'C18': {'main': ['ai_external_range_length__FI_FI', 'ai_destroy_range__pE_pE', 'svb_erase_last', 'svb_erase_all', 'svb_erase_to_end', 'svb_dtor', 'svb_ctor__pcA', 'svb_ctor__psvb',
+    'C18': {'pair_gt': ['svb_ctor__psvbM'], 'pair_lt': ['svb_ctor__psvbM'], 'main': ['ai_external_range_length__FI_FI', 'ai_destroy_range__pE_pE', 'svb_erase_last', 'svb_erase_all', 'svb_erase_to_end', 'svb_dtor', 'svb_ctor__pcA', 'svb_ctor__psvb',
                      'svb_move_assign_default__psvb', 'svb_swap_default', 'sv_size', 'sv_capacity', 'sv_clear', 'sv_pop_back', 'svb_erase_range', 'svb_emplace_into_current__pE_pE']},
 }
